@@ -35,7 +35,7 @@ FIELDS = {
     "vsg.config.config.dConfig": "obj:builtins.dict",
     "vsg.config.config.dIndent": "obj:builtins.dict",
     "vsg.config.config.dFixOnly": "opt[obj:builtins.dict]",
-    "vsg.config.config.severity_list": "obj:vsg.severity.severity_list",
+    "vsg.config.config.severity_list": "obj:vsg.severity.create_list",
     "builtins.ClassifyError.message": "str",
     "builtins.dict.__items__": "int",
     "builtins.ConfigurationError.message": "str",
